@@ -203,6 +203,8 @@ def exact_small_quantile(p, xs):
 def small_quantile_ok(obs, values, mids):
     if obs != obs:
         return False
+    if obs in (math.inf, -math.inf):
+        return any(obs == v for v in values)
     if any(obs == v for v in values):
         return True
     for m in mids:
